@@ -161,6 +161,10 @@ def gen_script(rnd, tier, state):
                 L.append("regU|%s|%d|%s|%s" % (sv(v), p, rnd.choice(["#b", "#n", "#t"]), info))
                 L += observations()
                 continue
+            if pending and L[-1] == "nest|R" and old and not (eq(v, old[0]) and info == old[1]) and rnd.random() < 0.6:
+                # a REPLACING registration: the subscriber reacts to the Unregistered event of the utility being replaced, which is
+                # delivered in the middle of the call
+                L[-1] = "nest|U"
             # `^p`: `provided` is not passed either, the component itself provides it
             L.append("regU|%s|%s%d|%s%s|%s" % (sv(v), "^" if rnd.random() < 0.15 else "", p, "@" if rnd.random() < 0.2 else "", n, info))
             S.util[(p, n)] = (v, info)
@@ -263,6 +267,29 @@ def observations(mode="all"):
     return L
 
 
+def virtualise(lines, outs):
+    """-> (index, line, answer) in the order in which the calls took effect.  Every event is delivered when the call that emits it
+    has done its writing, so a call made by a subscriber takes effect after the call that sent the event -- except for the
+    Unregistered event of a REPLACED utility, which registerUtility delivers in the middle: old utility out, the subscriber's call,
+    then the registration proper (which looks at the slot again)."""
+    res = []
+    i = 0
+    while i < len(lines):
+        if (lines[i].strip() == "nest|U" and i + 2 < len(lines) and lines[i + 1].startswith("regU|") and outs[i + 2].endswith(" NESTED")
+                and outs[i + 1].startswith("None [U:Utility")):
+            f = [x.strip() for x in lines[i + 1].split("|")]
+            rest = outs[i + 1][len("None [U:Utility"):].lstrip()
+            res.append((i, lines[i], outs[i]))
+            res.append((i + 1, "unregU|N|%s|%s" % (f[2].lstrip("^"), f[3].lstrip("@")), "True [U:Utility]"))
+            res.append((i + 2, lines[i + 2], outs[i + 2]))
+            res.append((i + 1, lines[i + 1], "None [" + rest))
+            i += 3
+            continue
+        res.append((i, lines[i], outs[i]))
+        i += 1
+    return res
+
+
 def oracle(chk, lines, outs, known=None):
     bad = []
     known = known if known is not None else []
@@ -280,7 +307,7 @@ def oracle(chk, lines, outs, known=None):
             if born.get((p, n), 0) < epoch and any(born.get(k, 0) < epoch for k in others):
                 chk.count("shared_utility_name_removed_after_reload")
         born.pop((p, n), None)
-    for i, (line, out) in enumerate(zip(lines, outs)):
+    for i, line, out in virtualise(lines, outs):
         f = [x.strip() for x in line.split("|")]
         op = f[0]
         if op == "reset":
